@@ -31,6 +31,158 @@ fn err_repr(e: &ErrorObject<'_>) -> String {
 	format!("code={} msg={} data={}", e.code(), hexs(e.message()), e.data().map(|d| hexs(d.get())).unwrap_or("none".into()))
 }
 
+// ---------------------------------------------------------------------------------------------
+// "Twins": the other ways the crate offers to obtain or copy the same value (clone, into_owned, borrow,
+// borrowed constructors, conversions, Display, accessors) must agree with the value itself — they
+// are what the clients and the server use on their way to and from the wire.
+
+fn ser<T: serde::Serialize>(v: &T) -> String {
+	serde_json::to_string(v).unwrap_or_else(|e| format!("<serialisation failed: {e}>"))
+}
+
+fn id_twins(id: &Id<'_>) -> Result<(), String> {
+	let owned: Id<'static> = id.clone().into_owned();
+	if owned != *id || id.clone() != *id || ser(&owned) != ser(id) {
+		return Err(format!("Id::into_owned / clone of {id:?} gives {owned:?}"));
+	}
+	let (n, st, nu) = (id.as_number().copied(), id.as_str().map(|s| s.to_string()), id.as_null());
+	let (en, es, enu, disp, parsed) = match id {
+		Id::Null => (None, None, Some(()), "null".to_string(), None),
+		Id::Number(k) => (Some(*k), None, None, k.to_string(), Some(*k)),
+		Id::Str(x) => (None, Some(x.to_string()), None, x.to_string(), x.parse::<u64>().ok()),
+	};
+	if n != en || st != es || nu != enu {
+		return Err(format!("Id accessors of {id:?}: as_number {n:?} as_str {st:?} as_null {nu:?}"));
+	}
+	if id.to_string() != disp {
+		return Err(format!("Display of {id:?} is `{id}`"));
+	}
+	if id.try_parse_inner_as_number().ok() != parsed {
+		return Err(format!("try_parse_inner_as_number of {id:?} = {:?}, expected {parsed:?}", id.try_parse_inner_as_number()));
+	}
+	Ok(())
+}
+
+fn subid_twins(sid: &SubscriptionId<'_>) -> Result<(), String> {
+	let owned: SubscriptionId<'static> = sid.clone().into_owned();
+	if owned != *sid || ser(&owned) != ser(sid) {
+		return Err(format!("SubscriptionId::into_owned of {sid:?} gives {owned:?}"));
+	}
+	let v: serde_json::Value = sid.clone().into();
+	if serde_json::to_string(&v).unwrap() != ser(sid) && !matches!(sid, SubscriptionId::Str(_)) {
+		return Err(format!("Value::from({sid:?}) = {v}"));
+	}
+	match SubscriptionId::try_from(v.clone()) {
+		Ok(back) if back == *sid => {}
+		other => return Err(format!("{sid:?} -> Value {v} -> {other:?}")),
+	}
+	let made: SubscriptionId = match sid {
+		SubscriptionId::Num(n) => (*n).into(),
+		SubscriptionId::Str(s) => s.to_string().into(),
+	};
+	if made != *sid {
+		return Err(format!("From<u64>/From<String> gives {made:?} for {sid:?}"));
+	}
+	Ok(())
+}
+
+fn err_twins(e: &ErrorObject<'_>) -> Result<(), String> {
+	let same = |a: &ErrorObject, b: &ErrorObject| a.code() == b.code() && a.message() == b.message() && a.data().map(|d| d.get()) == b.data().map(|d| d.get());
+	let owned: ErrorObjectOwned = e.clone().into_owned();
+	if !same(&owned, e) || ser(&owned) != ser(e) {
+		return Err(format!("ErrorObject::into_owned of {e:?} gives {owned:?}"));
+	}
+	let b = e.borrow();
+	if !same(&b, e) || ser(&b) != ser(e) {
+		return Err(format!("ErrorObject::borrow of {e:?} gives {b:?}"));
+	}
+	let made = ErrorObject::borrowed(e.code(), e.message(), e.data());
+	if !same(&made, e) || ser(&made) != ser(e) {
+		return Err(format!("ErrorObject::borrowed(..) of the parts of {e:?} gives {made:?}"));
+	}
+	let made = ErrorObject::owned(e.code(), e.message().to_string(), e.data().map(|d| d.to_owned()));
+	if !same(&made, e) || ser(&made) != ser(e) {
+		return Err(format!("ErrorObject::owned(..) of the parts of {e:?} gives {made:?}"));
+	}
+	// the error object of a bare code: that code, the code's standard message, no data
+	let kind = ErrorCode::from(e.code());
+	let bare: ErrorObject = kind.into();
+	if bare.code() != e.code() || bare.message() != kind.message() || bare.data().is_some() {
+		return Err(format!("ErrorObject::from(ErrorCode::from({})) = {bare:?}", e.code()));
+	}
+	Ok(())
+}
+
+fn resp_copy<'a>(r: &Response<'a, Box<RawValue>>) -> Response<'a, Box<RawValue>> {
+	let mut c = Response::new(r.payload.clone(), r.id.clone());
+	if r.jsonrpc.is_none() {
+		c.jsonrpc = None;
+	}
+	c
+}
+
+fn resp_twins(r: &Response<'_, Box<RawValue>>) -> Result<(), String> {
+	type T = Box<RawValue>;
+	let result_text = |v: &T| v.get().to_string();
+	let copy = resp_copy;
+	let s = ser(r);
+	// `Response` is not `Clone`: a copy is put together from copies of its parts (`resp_copy`)
+	if ser(&copy(r)) != s {
+		return Err(format!("Response::new(payload.clone(), id.clone()) of {s} gives {}", ser(&copy(r))));
+	}
+	let owned = copy(r).into_owned();
+	if ser(&owned) != s || owned.id != r.id || owned.jsonrpc.is_some() != r.jsonrpc.is_some() {
+		return Err(format!("Response::into_owned of {s} gives {}", ser(&owned)));
+	}
+	if r.to_string() != s || format!("{r:?}") != s {
+		return Err(format!("Display/Debug of response {s}: `{r}` / `{r:?}`"));
+	}
+	// the payload's own copies
+	let with = |p: ResponsePayload<'_, T>| {
+		let mut c = Response::new(p, r.id.clone());
+		if r.jsonrpc.is_none() {
+			c.jsonrpc = None;
+		}
+		ser(&c)
+	};
+	match &r.payload {
+		ResponsePayload::Success(v) => {
+			let (a, b, c) = (with(ResponsePayload::success_borrowed(v.as_ref())), with(ResponsePayload::success(v.clone().into_owned())), with(r.payload.clone().into_owned()));
+			if a != s || b != s || c != s {
+				return Err(format!("success_borrowed / success / into_owned of the payload of {s}: {a} / {b} / {c}"));
+			}
+		}
+		ResponsePayload::Error(e) => {
+			let (a, b, c) = (with(ResponsePayload::error_borrowed(e.borrow())), with(ResponsePayload::error(e.clone().into_owned())), with(r.payload.clone().into_owned()));
+			if a != s || b != s || c != s {
+				return Err(format!("error_borrowed / error / into_owned of the payload of {s}: {a} / {b} / {c}"));
+			}
+			err_twins(e)?;
+		}
+	}
+	// Success::try_from: Ok exactly for a result, carrying it and the id; otherwise the error object
+	match (jsonrpsee_types::response::Success::try_from(copy(r)), &r.payload) {
+		(Ok(su), ResponsePayload::Success(v)) if su.id == r.id && result_text(&su.result) == result_text(v.as_ref()) && su.jsonrpc.is_some() == r.jsonrpc.is_some() => {}
+		(Err(e), ResponsePayload::Error(e0)) if e.code() == e0.code() && e.message() == e0.message() && e.data().map(|d| d.get()) == e0.data().map(|d| d.get()) => {}
+		(other, _) => return Err(format!("Success::try_from({s}) = {:?}", other.map(|su| (su.id, result_text(&su.result))))),
+	}
+	id_twins(&r.id)
+}
+
+fn req_twins(r: &Request<'_>) -> Result<(), String> {
+	let s = ser(r);
+	let params_txt = r.params.as_ref().map(|p| p.get().to_string());
+	let b = Request::borrowed(&r.method, r.params.as_deref(), r.id.clone());
+	let o = Request::owned(r.method.to_string(), r.params.as_ref().map(|p| p.clone().into_owned()), r.id.clone());
+	if ser(&b) != s || ser(&o) != s || ser(&r.clone()) != s {
+		return Err(format!("Request::borrowed / owned / clone of {s}: {} / {}", ser(&b), ser(&o)));
+	}
+	if r.id() != r.id || r.method_name() != r.method.as_ref() || r.params().as_str().map(|x| x.to_string()) != params_txt {
+		return Err(format!("Request accessors of {s}: id {:?} method {:?} params {:?}", r.id(), r.method_name(), r.params().as_str()));
+	}
+	id_twins(&r.id)
+}
+
 fn do_line(out: &mut Out, line: &str) {
 	let w: Vec<&str> = line.split(' ').collect();
 	let txt = |i: usize| String::from_utf8(unhex(w[i])).unwrap();
@@ -61,7 +213,7 @@ fn do_line(out: &mut Out, line: &str) {
 				Ok(id) => {
 					let s = serde_json::to_string(id).unwrap();
 					match serde_json::from_str::<Id>(&s) {
-						Ok(id2) if &id2 == id => Ok(()),
+						Ok(id2) if &id2 == id => id_twins(id),
 						other => Err(format!("id {t} -> {s} -> {other:?}")),
 					}
 				}
@@ -77,7 +229,7 @@ fn do_line(out: &mut Out, line: &str) {
 			let back = serde_json::from_str::<Id>(&s);
 			let orc = match back {
 				Ok(b) if b == id => {
-					if serde_json::to_string(&b).unwrap() == s { Ok(()) } else { Err("re-serialise differs".into()) }
+					if serde_json::to_string(&b).unwrap() == s { id_twins(&id) } else { Err("re-serialise differs".into()) }
 				}
 				other => Err(format!("id round trip {id:?} -> {s} -> {other:?}")),
 			};
@@ -95,7 +247,7 @@ fn do_line(out: &mut Out, line: &str) {
 				Ok(id) => {
 					let s = serde_json::to_string(id).unwrap();
 					match serde_json::from_str::<SubscriptionId>(&s) {
-						Ok(id2) if &id2 == id => Ok(()),
+						Ok(id2) if &id2 == id => subid_twins(id),
 						other => Err(format!("subid {t} -> {s} -> {other:?}")),
 					}
 				}
@@ -123,7 +275,7 @@ fn do_line(out: &mut Out, line: &str) {
 			};
 			let s = serde_json::to_string(&id).unwrap();
 			let orc = match serde_json::from_str::<SubscriptionId>(&s) {
-				Ok(b) if b == id => Ok(()),
+				Ok(b) if b == id => subid_twins(&id),
 				other => Err(format!("subid round trip {id:?} -> {s} -> {other:?}")),
 			};
 			out.line(line.into(), hexs(&s), orc, true);
@@ -149,7 +301,7 @@ fn do_line(out: &mut Out, line: &str) {
 								&& r2.method == req.method && r2.params.as_ref().map(|p| p.get().to_string())
 								== req.params.as_ref().map(|p| p.get().to_string()) =>
 						{
-							Ok(())
+							req_twins(req)
 						}
 						other => Err(format!("request re-parse mismatch: {s} -> {other:?}")),
 					}
@@ -196,7 +348,7 @@ fn do_line(out: &mut Out, line: &str) {
 					let other_data = ErrorObject::owned(e.code(), e.message().to_string(), Some(RawValue::from_string("[\"other\"]".into()).unwrap()));
 					let eq_ok = (other_code == *e) == same(&other_code, e) && (other_msg == *e) == same(&other_msg, e) && (other_data == *e) == same(&other_data, e);
 					match serde_json::from_str::<ErrorObject>(&s) {
-						Ok(e2) if same(&e2, e) && e2 == *e && eq_ok => Ok(()),
+						Ok(e2) if same(&e2, e) && e2 == *e && eq_ok => err_twins(e),
 						other => Err(format!("error object re-parse mismatch (or `==` disagrees with the fields): {s} -> {other:?}")),
 					}
 				}
@@ -214,7 +366,13 @@ fn do_line(out: &mut Out, line: &str) {
 			};
 			// oracle: the parser accepts exactly per the statement (checked with plain serde_json::Value
 			// when the text has no duplicate keys — Value cannot see duplicates).
-			let orc = resp_dec_oracle(&t, r.is_ok());
+			let orc = resp_dec_oracle(&t, r.is_ok()).and_then(|_| match &r {
+				Ok(_) => match serde_json::from_str::<Response<Box<RawValue>>>(&t) {
+					Ok(rp) => resp_twins(&rp),
+					Err(e) => Err(format!("accepted as Response<&RawValue> but not as Response<Box<RawValue>>: {e}")),
+				},
+				Err(_) => Ok(()),
+			});
 			out.count(if r.is_ok() { "resp_dec.ok" } else { "resp_dec.err" });
 			out.line(line.into(), o, orc, true);
 		}
@@ -230,7 +388,9 @@ fn do_line(out: &mut Out, line: &str) {
 				let s = serde_json::to_string(&r).unwrap();
 				let orc = match serde_json::from_str::<Response<&RawValue>>(&s) {
 					Ok(b) => match &b.payload {
-						ResponsePayload::Success(v) if v.get() == raw.get() && b.id == id && b.jsonrpc.is_some() == jsonrpc => emitted_ok(&s, jsonrpc),
+						ResponsePayload::Success(v) if v.get() == raw.get() && b.id == id && b.jsonrpc.is_some() == jsonrpc => {
+							emitted_ok(&s, jsonrpc).and_then(|_| resp_twins(&r))
+						}
 						_ => Err(format!("response round trip mismatch {s}")),
 					},
 					Err(e) => Err(format!("own response does not parse: {s}: {e}")),
@@ -253,7 +413,7 @@ fn do_line(out: &mut Out, line: &str) {
 								&& e.message() == msg && e.data().map(|d| d.get().to_string()) == data.as_ref().map(|d| d.get().to_string())
 								&& b.id == id =>
 						{
-							emitted_ok(&s, jsonrpc)
+							emitted_ok(&s, jsonrpc).and_then(|_| resp_twins(&r))
 						}
 						ResponsePayload::Error(e) if data.as_ref().map(|d| d.get()) == Some("null") && e.data().is_none() && e.code() == code && e.message() == msg && b.id == id => {
 							Err(format!("KF optional-raw-null-reads-back-absent error data Some(null) -> {s} -> data None"))
@@ -273,7 +433,7 @@ fn do_line(out: &mut Out, line: &str) {
 			let eo: ErrorObjectOwned = ErrorObject::owned(code, msg, data);
 			let s = serde_json::to_string(&eo).unwrap();
 			let orc = match serde_json::from_str::<ErrorObject>(&s) {
-				Ok(b) if b == eo => Ok(()),
+				Ok(b) if b == eo => err_twins(&eo),
 				Ok(b) if eo.data().map(|d| d.get()) == Some("null") && b.data().is_none() && b.code() == eo.code() && b.message() == eo.message() => {
 					Err(format!("KF optional-raw-null-reads-back-absent error data Some(null) -> {s} -> data None"))
 				}
@@ -292,7 +452,7 @@ fn do_line(out: &mut Out, line: &str) {
 					if b.id == id
 						&& b.method == method && b.params.as_ref().map(|p| p.get().to_string()) == params.as_ref().map(|p| p.get().to_string()) =>
 				{
-					if serde_json::to_string(&b).unwrap() == s { Ok(()) } else { Err("request re-serialise differs".into()) }
+					if serde_json::to_string(&b).unwrap() == s { req_twins(&r) } else { Err("request re-serialise differs".into()) }
 				}
 				Ok(b) if params.as_ref().map(|p| p.get()) == Some("null") && b.params.is_none() && b.id == id && b.method == method => {
 					Err(format!("KF optional-raw-null-reads-back-absent request params Some(null) -> {s} -> params None"))
@@ -307,7 +467,13 @@ fn do_line(out: &mut Out, line: &str) {
 			let n = Notification::new(method.clone().into(), params.clone());
 			let s = serde_json::to_string(&n).unwrap();
 			let orc = match serde_json::from_str::<Notification<Option<&RawValue>>>(&s) {
-				Ok(b) if b.method == method && b.params.map(|p| p.get().to_string()) == params.as_ref().map(|p| p.get().to_string()) => Ok(()),
+				Ok(b) if b.method == method && b.params.map(|p| p.get().to_string()) == params.as_ref().map(|p| p.get().to_string()) => {
+					if n.method_name() == method && n.params().as_ref().map(|p| p.get()) == params.as_ref().map(|p| p.get()) && ser(&n.clone()) == s {
+						Ok(())
+					} else {
+						Err(format!("Notification accessors / clone of {s}: method {:?}", n.method_name()))
+					}
+				}
 				Ok(b) if params.as_ref().map(|p| p.get()) == Some("null") && b.params.is_none() && b.method == method => {
 					Err(format!("KF optional-raw-null-reads-back-absent notification params Some(null) -> {s} -> params None"))
 				}
